@@ -65,3 +65,47 @@ PLANS["C05"] = dict(
         "shape over its own ghost buffers (stated, compared by inspection)",
     ],
 )
+
+PLANS["C19"] = dict(
+    title="Bytes on the wire are those of the published 5.x protocol",
+    contracts=["brine", "compat", "externals", "stream", "channel"], specs=["brine_spec", "channel_spec"], table="reference",
+    targets=BRINE_ALL + CHANNEL_FUNCS, lemmas=["app_snoc", "app_nil", "plain_snoc", "vlen_app"],
+    compositions=["C04/roundtrip", "C05/sequence-step"], finite=["wire_constants"],
+    native_focus=[(BRINE + "dump", "default"), (BRINE + "load", "roundtrip"), (CHANNEL + "Channel.send", "default"),
+                  (CHANNEL + "Channel.recv", "roundtrip")],
+    design_ref="DESIGN.md section 4, C19",
+    assumptions=PLANS["C04"]["assumptions"] + [
+        "the published 5.x format is fixed as the frozen reference spec/wire_5x.json (transcribed once from the pinned "
+        "commit; no separate format document exists in docs/); 52 golden vectors are re-derived from the spec each run",
+        "zlib streams are interoperable (only the flag byte and the threshold are part of the format); "
+        "COMPRESSION_LEVEL is not part of the format",
+        "library models of the transport (contracts/externals.py), A-FIFO",
+        "message / request layouts (kind, seq, args), (handler, boxed args) are covered by the protocol contracts "
+        "only once those are under contract (see C08/C01); here: value encoding, framing and all numeric constants",
+    ],
+)
+
+PROTO = "rpyc/core/protocol.py::Connection."
+ATTR_FUNCS = [PROTO + n for n in ("_check_attr", "_access_attr", "_handle_getattr", "_handle_setattr", "_handle_delattr",
+                                  "_handle_call", "_handle_callattr", "_handle_cmp", "_handle_ctxexit", "_handle_oldslicing")]
+SERVICE_HOOKS = ["rpyc/core/service.py::Service._rpyc_delattr", "rpyc/core/service.py::Service._rpyc_setattr"]
+ALL_CONTRACTS = ["brine", "compat", "externals", "stream", "channel", "protocol_attr"]
+ALL_SPECS = ["brine_spec", "channel_spec", "policy_spec"]
+
+PLANS["C06"] = dict(
+    title="Attribute access by the peer follows the connection's policy, and only its own",
+    contracts=ALL_CONTRACTS, specs=ALL_SPECS, table="module",
+    targets=ATTR_FUNCS + SERVICE_HOOKS, lemmas=[], compositions=[],
+    native_focus=[(PROTO + "_check_attr", "default")],
+    design_ref="DESIGN.md section 4, C06",
+    assumptions=COMMON_ASSUMPTIONS + [
+        "hasattr(obj, name) and set membership `name in safe_attrs` are pure predicates (no side effects)",
+        "getattr(type(obj), hook_name, None) returns the class attribute or None without side effects",
+        "a call of an unknown callable (the accessor, the object's own hook, the looked-up method) is one ghost Call "
+        "event with an arbitrary result / exception; it does not modify the connection's configuration",
+        "*args of a non-tuple value contributes the items its iteration yields (uninterpreted)",
+        "type invariant of a connection's configuration (precondition): the seven switches are bools, the prefix is text",
+        "when a name is allowed AND the object has an exposed twin, either may be accessed (the statement does not "
+        "choose); every other case is pinned by the statement",
+    ],
+)
